@@ -8,6 +8,7 @@ mod blackbox;
 mod cputime;
 mod crumb;
 mod eng;
+mod extreme;
 #[cfg(feature = "search")]
 mod graph;
 mod json;
@@ -111,6 +112,27 @@ fn dispatch_base(cmd: &str, args: &[String], tier: &String, seed: u64, out: &Str
     Some(match cmd {
         "info" => {
             println!("bound to {} modules: {:?}", env!("FLOUNDER_REPO_BOUND"), REPO_MODULES);
+            0
+        }
+        "count" => {
+            // model-only helper for building roots: validity, legal / tactical move counts
+            let fen = arg(&args, "--fen").unwrap();
+            match refchess::Pos::from_fen(&fen) {
+                Ok(p) => println!("{} valid={:?} in_check={} legal={} tactical={}", fen, p.validity(), p.in_check(p.stm), p.legal_moves().len(), p.tactical_moves().len()),
+                Err(e) => println!("{} unparsable: {}", fen, e),
+            }
+            0
+        }
+        "climb" => {
+            let what = arg(&args, "--what").unwrap();
+            let steps: u64 = arg(&args, "--steps").and_then(|x| x.parse().ok()).unwrap_or(200_000);
+            let seeds: Vec<u64> = (0..16).map(|i| seed * 100 + i).collect();
+            let res = par::par_map(&seeds, |s| extreme::climb(&what, *s, steps));
+            let mut res = res;
+            res.sort();
+            for (v, f) in res.iter().rev().take(6) {
+                println!("{} {}", v, f);
+            }
             0
         }
         "selftest" => match refchess::self_test(if tier == "thorough" { 5 } else { 4 }) {
